@@ -5,6 +5,7 @@ import MJ.Proofs.LocVmTie
 import MJ.Proofs.LocAstStmt
 import MJ.Proofs.LocParse
 import MJ.Model.LocAstArms
+import MJ.Proofs.LocEndToEnd
 /-!
 # C14 — errors point at the right template line; reported ranges are valid slices
 
@@ -570,6 +571,33 @@ theorem source_tie_parser_spans :
     (MJ.Gen.c14ParserSpans.all (fun r => coveringStart r.2.2.1 || r.2.2.1 == "last_span") = true) := by
   decide
 
+open MJ.LocParse in
+/-- the start a row of the regenerated parser table stands for -/
+def capOfRow (r : String × String × String × String) : Cap := if coveringStart r.2.2.1 then .current else .last
+
+open MJ.LocParse in
+/-- **Every node's span covers its tokens** — stated over the table regenerated from parser.rs: for every
+    `Spanned::new` site (row) that is not one of the listed `last_span()` sites, whatever the token stream and
+    however many tokens (≥ 1) the parse function consumes, the span it builds runs from the start of the
+    first to the end of the last token of its construct.  A new site that takes its start from `last_span()`
+    (or from anything the extractor does not know) is not in `lastSpanSites`, so this theorem stops building. -/
+theorem every_node_span_covers_its_tokens :
+    ∀ r ∈ MJ.Gen.c14ParserSpans, (r.1, r.2.1) ∉ lastSpanSites →
+      ∀ (s : TS) (k : Nat), Inv s → 1 ≤ k → s.pos + k ≤ s.toks.length →
+        ∃ a b, s.toks[s.pos]? = some a ∧ s.toks[s.pos + k - 1]? = some b ∧ built (capOfRow r) s k = cover a b := by
+  intro r hr hnot s k hinv hk hlen
+  have hcov : coveringStart r.2.2.1 = true := by
+    cases h : coveringStart r.2.2.1 with
+    | true => rfl
+    | false =>
+      exfalso
+      apply hnot
+      rw [← source_tie_parser_spans.1]
+      exact List.mem_map.mpr ⟨r, List.mem_filter.mpr ⟨hr, by simp [h]⟩, rfl⟩
+  have hc : capOfRow r = .current := by simp [capOfRow, hcov]
+  rw [hc]
+  exact span_covers_construct s k hinv hk hlen
+
 example : MJ.LocParse.built .current (MJ.LocParse.TS.new [⟨1, 0, 0, 1, 2, 2⟩, ⟨1, 3, 3, 1, 4, 4⟩, ⟨2, 0, 6, 2, 2, 8⟩]).next 2 =
     ⟨1, 3, 3, 2, 2, 8⟩ := by decide
 
@@ -666,6 +694,64 @@ example : ((execL LS.init (cStmt [] (witnessFolded false))).2.map (fun e => e.li
     written from and validated against -/
 theorem source_tie_codegen_arms : MJ.Gen.c14CodegenArms = MJ.LocAst.expectedArms := rfl
 
+/-- **Every span the code generator records is the span of an AST node** — decided on the table regenerated
+    from codegen.rs (one row per `push_span` / `set_line_from_span` / `add_with_span` call): the argument is
+    `<node>.span()` of a node of the arm at hand, the `span` parameter of a helper (`push_span`,
+    `add_with_span`, `compile_call_args`, whose callers are rows of this table themselves) or the innermost
+    pushed span inside `CodeGenerator::add`.  A call that passes a computed span, `Span::default()` or a span
+    of something else makes this theorem fail. -/
+theorem instr_span_is_node_span :
+    MJ.Gen.c14CodegenSpanArgs.all (fun r => r.2.2.2.2 == "node" || r.2.2.2.2 == "stack" ||
+      (r.2.2.2.2 == "param" && (r.1 == "push_span" || r.1 == "add_with_span" || r.1 == "compile_call_args"))) = true ∧
+    MJ.Gen.c14CodegenSpanArgs.length ≥ 40 := by
+  decide
+
+example : ("compile_stmt", "add_with_span", "Include", "include.span()", "node") ∈ MJ.Gen.c14CodegenSpanArgs := by decide
+
+/-! ## 10. end to end: the line an error reports is a line of the failing construct -/
+
+open MJ.LocAst in
+/-- **`execL` is what the real side tables answer** (was: cross-checked by the driver on every program).
+    For every script of location calls of one generator — whatever the compile arms emit — and every
+    instruction `pc`: `process_err`, i.e. `get_span(pc)` else `get_line(pc)` on the run-length tables built
+    by `Instructions::{add, add_with_line, add_with_span}` through `CodeGenerator::{add, add_with_span}`,
+    attaches exactly the line the simple semantics `execL` assigns to that instruction (and a span only
+    if it starts on that line). -/
+theorem tables_answer_execL (evs : List Ev) (hf : evs.all flat = true) (hlen : evs.length < 4294967296)
+    (pc : Nat) (e : Em) (he : (execL LS.init evs).2[pc]? = some e) :
+    ∃ att, processErr (execG GS.init evs).cur.cg.instrs pc = .ok att ∧ (e.line = none ∨ attachedLine att = e.line) :=
+  MJ.LocAst.tables_answer_execL evs hf hlen pc e he
+
+open MJ.LocAst in
+/-- **The reported line is a line of the failing construct.**  Composition of the code generator theorem
+    (`instr_line_in_construct`: every compile arm records its instructions on lines of its own construct),
+    the side tables (`line_table_lookup` / `span_table_lookup`, binary search included) and the VM's
+    `process_err`: for a well-formed AST compiled by one generator, whatever instruction `pc` fails,
+    the location `process_err` attaches to the error is a line `l` with `lo ≤ l ≤ hi`, the first and
+    last line of the construct whose compile arm emitted that instruction.  (That every failing
+    instruction reaches `process_err` is `source_tie_vm_rows`; that `lo..hi` are the lines of the
+    construct's own tokens is `span_covers_construct` + the parser table.) -/
+theorem error_line_is_construct_line (ctx : List Pend) (n : Node) (hw : wf n = true) (hroot : n.lo = 0)
+    (hflat : (cStmt ctx n).all flat = true) (hlen : (cStmt ctx n).length < 4294967296)
+    (pc : Nat) (e : Em) (he : (execL LS.init (cStmt ctx n)).2[pc]? = some e) :
+    ∃ att l, processErr (execG GS.init (cStmt ctx n)).cur.cg.instrs pc = .ok att ∧
+      attachedLine att = some l ∧ e.lo ≤ l ∧ l ≤ e.hi := by
+  obtain ⟨att, hatt, hline⟩ := MJ.LocAst.tables_answer_execL (cStmt ctx n) hflat hlen pc e he
+  have hmem : e ∈ (execL LS.init (cStmt ctx n)).2 := List.mem_of_getElem? he
+  obtain ⟨l, hl, h1, h2⟩ := instr_line_in_construct ctx n hw LS.init (by simp [LS.init, hroot]) e hmem
+  rcases hline with hnone | hsome
+  · rw [hl] at hnone; cases hnone
+  · exact ⟨att, l, hatt, by rw [hsome, hl], h1, h2⟩
+
+open MJ.LocAst in
+/-- non-vacuity: `{{ foo(⏎ a == 1 and x) }}` — 7 instructions, all reported on line 2 through the real tables -/
+example : wf (witnessFolded false) = true ∧ (witnessFolded false).lo = 0 ∧
+    (cStmt [] (witnessFolded false)).all flat = true ∧
+    ((List.range 7).map fun pc => (processErr (execG GS.init (cStmt [] (witnessFolded false))).cur.cg.instrs pc)) =
+      [.ok (.line 2), .ok (.line 2), .ok (.line 2), .ok (.line 2),
+       .ok (.span ⟨2, 1, 9, 2, 13, 21⟩), .ok (.line 2), .ok (.line 2)] := by
+  decide
+
 /-! ## the full statement -/
 
 /-- Full-strength statement about the model (sources shorter than 2^32 bytes, instruction lists
@@ -694,5 +780,50 @@ theorem c14_full : C14_full :=
   ⟨advance_position, span_valid_in_full_source, shift_lines,
    fun ops hlen i => ⟨line_table_lookup ops hlen i, span_table_lookup ops hlen i⟩,
    fun lines line sp h => debug_render_total lines line sp h⟩
+
+/-! ## the property at full strength, and what stands between it and what is proved -/
+
+open MJ.LocAst in
+/-- **C14 as stated**, over the model: for every source and every AST the parser yields for it
+    (`parsed src ast`), every instruction `pc` of the compiled program that fails reports — through
+    `process_err` on the real side tables — a line of the construct whose arm emitted it; every span the
+    tokenizer can create on the source is a valid slice of it; `N` lines of text above shift every
+    location by exactly `N` lines and nothing else; rendering the report never panics. -/
+def C14_statement (parsed : List Char → Node → Prop) : Prop :=
+  (∀ src ast, parsed src ast → ∀ (pc : Nat) (e : Em), (execL LS.init (cStmt [] ast)).2[pc]? = some e →
+      ∃ att l, processErr (execG GS.init (cStmt [] ast)).cur.cg.instrs pc = .ok att ∧
+        attachedLine att = some l ∧ e.lo ≤ l ∧ l ≤ e.hi) ∧
+  C14_full
+
+open MJ.LocAst in
+/-- **Main theorem.**  `C14_statement` follows from three named facts about the parser's output, each
+    either tied to the source by a regenerated table or checked on every AST the real parser produces in
+    the correspondence streams (see META, level_note):
+    * `h_parser_wf` — the construct line ranges of the AST nest and contain the start lines of the spans
+      (VALIDATED on every dumped AST by the model driver, streams cga/cge incl. the grammar-drawn
+      templates; what a span covers is proved in `span_covers_construct`, which parser site uses which
+      start is decided on the regenerated table in `source_tie_parser_spans`; false only for the known
+      finding: comparisons folded to constants, which cannot fail);
+    * `h_root` — the root `Template` node starts at `Span::default()` (line 0);
+    * `h_one_generator` — no `{% block %}` sub-generator (blocks: VALIDATED by the cga stream, the same
+      bookkeeping per generator);
+    * `h_size` — fewer than 2^32 instructions (`first_instruction: u32`).
+    The remaining tie between model and code: `source_tie_codegen_arms`, `source_tie_vm_rows`,
+    `source_tie_widths` (regenerated tables) and the differential streams. -/
+theorem C14_main (parsed : List Char → Node → Prop)
+    (h_parser_wf : ∀ src ast, parsed src ast → wf ast = true)
+    (h_root : ∀ src ast, parsed src ast → ast.lo = 0)
+    (h_one_generator : ∀ src ast, parsed src ast → (cStmt [] ast).all flat = true)
+    (h_size : ∀ src ast, parsed src ast → (cStmt [] ast).length < 4294967296) :
+    C14_statement parsed :=
+  ⟨fun src ast hp pc e he =>
+    error_line_is_construct_line [] ast (h_parser_wf src ast hp) (h_root src ast hp) (h_one_generator src ast hp)
+      (h_size src ast hp) pc e he, c14_full⟩
+
+open MJ.LocAst in
+/-- the hypotheses of `C14_main` are satisfiable by a non-trivial parser relation -/
+example : C14_statement (fun _ ast => ast = witnessFolded false) :=
+  C14_main _ (by intro _ _ h; subst h; decide) (by intro _ _ h; subst h; decide)
+    (by intro _ _ h; subst h; decide) (by intro _ _ h; subst h; decide)
 
 end MJ.C14
